@@ -91,6 +91,10 @@ pub struct FindNodeContext<T: Clone + Into<Vec<u8>>> {
     /// These represent the number of peers added to the `Self::pending` minus the number of peers
     /// that have failed to respond within the `Self::peer_timeout`
     pending_responses: usize,
+
+    /// Pending peers that exceeded `Self::peer_timeout` and were already discounted from
+    /// `Self::pending_responses`. Each pending peer is discounted exactly once.
+    timed_out: HashSet<PeerId>,
 }
 
 impl<T: Clone + Into<Vec<u8>>> FindNodeContext<T> {
@@ -116,6 +120,7 @@ impl<T: Clone + Into<Vec<u8>>> FindNodeContext<T> {
 
             peer_timeout: DEFAULT_PEER_TIMEOUT,
             pending_responses: 0,
+            timed_out: HashSet::new(),
         }
     }
 
@@ -125,7 +130,10 @@ impl<T: Clone + Into<Vec<u8>>> FindNodeContext<T> {
             tracing::debug!(target: LOG_TARGET, query = ?self.config.query, ?peer, "pending peer doesn't exist during response failure");
             return;
         };
-        self.pending_responses = self.pending_responses.saturating_sub(1);
+        // A peer that timed out no longer counts towards the parallelism factor.
+        if !self.timed_out.remove(&peer.peer) {
+            self.pending_responses = self.pending_responses.saturating_sub(1);
+        }
 
         tracing::trace!(target: LOG_TARGET, query = ?self.config.query, ?peer, elapsed = ?instant.elapsed(), "peer failed to respond");
 
@@ -138,7 +146,10 @@ impl<T: Clone + Into<Vec<u8>>> FindNodeContext<T> {
             tracing::debug!(target: LOG_TARGET, query = ?self.config.query, ?peer, "received response from peer but didn't expect it");
             return;
         };
-        self.pending_responses = self.pending_responses.saturating_sub(1);
+        // A peer that timed out no longer counts towards the parallelism factor.
+        if !self.timed_out.remove(&peer.peer) {
+            self.pending_responses = self.pending_responses.saturating_sub(1);
+        }
 
         tracing::trace!(target: LOG_TARGET, query = ?self.config.query, ?peer, elapsed = ?instant.elapsed(), "received response from peer");
 
@@ -265,7 +276,7 @@ impl<T: Clone + Into<Vec<u8>>> FindNodeContext<T> {
         }
 
         for (peer, instant) in self.pending.values() {
-            if instant.elapsed() > self.peer_timeout {
+            if instant.elapsed() > self.peer_timeout && self.timed_out.insert(peer.peer) {
                 tracing::trace!(
                     target: LOG_TARGET,
                     query = ?self.config.query,
@@ -307,6 +318,19 @@ impl<T: Clone + Into<Vec<u8>>> FindNodeContext<T> {
         Some(QueryAction::QuerySucceeded {
             query: self.config.query,
         })
+    }
+}
+
+#[cfg(litep2p_verif)]
+impl<T: Clone + Into<Vec<u8>>> FindNodeContext<T> {
+    /// Verification hook: override the peer timeout (the unit tests set the field directly).
+    pub(crate) fn verif_set_peer_timeout(&mut self, timeout: std::time::Duration) {
+        self.peer_timeout = timeout;
+    }
+
+    /// Verification hook: read access to the parallelism accounting.
+    pub(crate) fn verif_counters(&self) -> (usize, &HashSet<PeerId>) {
+        (self.pending_responses, &self.timed_out)
     }
 }
 
